@@ -289,6 +289,65 @@ fn time_limit(ctx: &Ctx) -> SubReport {
     rep
 }
 
+/// The measure the growth cap is applied to: PushState::size() counts the items of the typed
+/// stacks ("total size of stacks without IO stacks"). META: pushing one item onto any of the nine
+/// typed stacks raises it by exactly one, queueing an INPUT/OUTPUT message does not change it,
+/// and it equals the sum of the nine depths of the snapshot.
+fn size_accounting(ctx: &Ctx, n: u64) -> SubReport {
+    run_sharded(
+        ctx,
+        "size-accounting",
+        n,
+        || {
+            let mut p = gen::StateParams::full(vec!["NOOP".into()]);
+            p.max_depth = 4;
+            p.tree_depth = 2;
+            p.tree_size = 5;
+            p.graphs = false;
+            gen::state(&p)
+        },
+        |s: &StateSpec| {
+            let (mut st, _) = s.build();
+            let base = st.size();
+            if base != s.main_size() {
+                return Err(Fail::new("C02/size/not-the-sum-of-the-typed-stacks", format!("PushState::size() = {} but the nine typed stacks hold {} items | {}", base, s.main_size(), s.brief())));
+            }
+            let mut sizes = vec![];
+            st.bool_stack.push(true);
+            sizes.push(("BOOLEAN", st.size()));
+            st.int_stack.push(1);
+            sizes.push(("INTEGER", st.size()));
+            st.float_stack.push(1.0);
+            sizes.push(("FLOAT", st.size()));
+            st.name_stack.push("n".into());
+            sizes.push(("NAME", st.size()));
+            st.code_stack.push(pushr::push::item::Item::int(1));
+            sizes.push(("CODE", st.size()));
+            st.exec_stack.push(pushr::push::item::Item::int(1));
+            sizes.push(("EXEC", st.size()));
+            st.bool_vector_stack.push(pushr::push::vector::BoolVector::new(vec![true]));
+            sizes.push(("BOOLVECTOR", st.size()));
+            st.int_vector_stack.push(pushr::push::vector::IntVector::new(vec![1]));
+            sizes.push(("INTVECTOR", st.size()));
+            st.float_vector_stack.push(pushr::push::vector::FloatVector::new(vec![1.0]));
+            sizes.push(("FLOATVECTOR", st.size()));
+            for (i, (t, sz)) in sizes.iter().enumerate() {
+                if *sz != base + i + 1 {
+                    return Err(Fail::new(format!("C02/size/ignores-{}", t), format!("pushing one item onto {} changed size() from {} to {}", t, base + i, sz)));
+                }
+            }
+            let before_io = st.size();
+            st.input_stack.push_force(pushr::push::io::PushMessage::new(pushr::push::vector::IntVector::new(vec![]), pushr::push::vector::BoolVector::new(vec![])));
+            st.output_stack.push_force(pushr::push::io::PushMessage::new(pushr::push::vector::IntVector::new(vec![]), pushr::push::vector::BoolVector::new(vec![])));
+            if st.size() != before_io {
+                return Err(Fail::new("C02/size/counts-io-queues", format!("queueing messages changed size() from {} to {}", before_io, st.size())));
+            }
+            Ok(CaseOut::new(base >= 3, s.digest()))
+        },
+        |s| json!({"state": s.to_json(), "brief": s.brief()}),
+    )
+}
+
 pub fn run(ctx: &Ctx) -> PropReport {
     let mut rep = PropReport::new(
         "RAND-free programs (general trees over the registry, flat literal lists unpacked in one step, EXEC.Y loops, DUP/FLUSH/FROMINT mixes, several top-level EXEC items) x initial states with and without CODE content x eval_push_limit in {-1,0,1,2,3} u [0,L] x growth_cap in {0,1,2,3,5,10,500}; non-trivial = outcome other than NoErrors, or NoErrors after >= 5 steps; distinct = (state, program, limits) digest",
@@ -299,6 +358,7 @@ pub fn run(ctx: &Ctx) -> PropReport {
     rep.assumptions.push("time-limit sub-check: a run slower than limit + 3 s is inconclusive, never a violation".into());
     let l = ctx.tier.pick(60, 400);
     rep.push(run_sharded(ctx, "run-vs-step", ctx.tier.pick(20_000, 600_000), move || case_strategy(l), judge, |c| json!({"state": c.state.to_json(), "program": c.state.exec.iter().map(|x| x.render()).collect::<Vec<_>>().join(" "), "eval_push_limit": c.state.config.eval_push_limit, "growth_cap": c.state.config.growth_cap})));
+    rep.push(size_accounting(ctx, ctx.tier.pick(4_000, 100_000)));
     rep.push(time_limit(ctx));
     rep
 }
@@ -306,5 +366,12 @@ pub fn run(ctx: &Ctx) -> PropReport {
 pub fn replay(_ctx: &Ctx, _sub: &str, case: &Value) -> Result<(), Fail> {
     let bad = || Fail::new("replay-format", "cannot decode C02 case");
     let s = StateSpec::from_json(case.get("state").ok_or_else(bad)?).ok_or_else(bad)?;
+    if _sub == "size-accounting" {
+        let (st, _) = s.build();
+        if st.size() != s.main_size() {
+            return Err(Fail::new("C02/size/not-the-sum-of-the-typed-stacks", format!("{} vs {}", st.size(), s.main_size())));
+        }
+        return Ok(());
+    }
     judge(&Case { state: s }).map(|_| ())
 }
